@@ -523,3 +523,29 @@ def m_windows(eng, callee, args):
         out.append(ND(a[i:i + w]))
         i += s
     return PyIter(out, len(out))
+
+
+@model(r"impl_methods::<impl ArrayBase<.*>>::assign::<", "assign: element-wise copy into the (view of the) array, shapes must broadcast")
+def m_assign(eng, callee, args):
+    dst = nd(args[0]).a
+    src = nd(args[1]).a
+    try:
+        dst[...] = np.broadcast_to(src, dst.shape)
+    except ValueError:
+        raise PanicPath("ndarray: assign shape mismatch")
+    return Tuple([])
+
+
+@model(r"impl_2d::<impl ArrayBase<.*>>::row_mut$", "row_mut(i) view")
+def m_row_mut(eng, callee, args):
+    a = nd(args[0]).a
+    i = args[1]
+    if not (0 <= i < a.shape[0]):
+        raise PanicPath("ndarray: index out of bounds")
+    return ND(a[i, :])
+
+
+@model(r"impl_methods::<impl ArrayBase<.*>>::(as_slice|as_slice_mut|as_slice_memory_order)$", "as_slice: Some(row-major elements) for contiguous arrays")
+def m_as_slice(eng, callee, args):
+    a = nd(args[0]).a
+    return Some(Ref.to(RVec(list(a.reshape(-1)))))
